@@ -273,6 +273,23 @@ func combos() []combo {
 				return &strategy.SplitStrategy{BuyStrategy: s[0], SellStrategy: s[1]}
 			}, model: modelSplit},
 	)
+	// the factories that build every ordered pair (used by the backtest command line tool): the strategy at index j
+	// combines the j-th ordered pair (first, second) of distinct inputs
+	pairs3 := [][2]int{{0, 1}, {0, 2}, {1, 0}, {1, 2}, {2, 0}, {2, 1}}
+	for j, pr := range pairs3 {
+		j, pr := j, pr
+		pick := func(subs [][]strategy.Action) [][]strategy.Action {
+			return [][]strategy.Action{subs[pr[0]], subs[pr[1]]}
+		}
+		cs = append(cs,
+			combo{name: fmt.Sprintf("AllAndStrategies(a,b,c)[%d]", j), k: 3,
+				build: func(s []strategy.Strategy) strategy.Strategy { return strategy.AllAndStrategies(s)[j] },
+				model: func(subs [][]strategy.Action, cl []float64) []strategy.Action { return modelAnd(pick(subs), cl) }},
+			combo{name: fmt.Sprintf("AllSplitStrategies(a,b,c)[%d]", j), k: 3,
+				build: func(s []strategy.Strategy) strategy.Strategy { return strategy.AllSplitStrategies(s)[j] },
+				model: func(subs [][]strategy.Action, cl []float64) []strategy.Action { return modelSplit(pick(subs), cl) }},
+		)
+	}
 	// group strategies nested directly inside group strategies: the outer vote is over the inner group's STANDING recommendation
 	and2 := func(a, b strategy.Strategy) strategy.Strategy { return strategy.NewAndStrategy("and", a, b) }
 	or2 := func(a, b strategy.Strategy) strategy.Strategy { return strategy.NewOrStrategy("or", a, b) }
